@@ -368,7 +368,7 @@ def cmd_report(a):
             if not rel.endswith(".rs") or not os.path.exists(os.path.join(a.repo, rel)):
                 o.append("   %-40s %9s %9s   (not a Rust source of the crate: not measured)" % (rel, "-", "-")); continue
             if rel not in total:
-                o.append("   %-40s %9s %9s   (not compiled)" % (rel, "-", "-")); continue
+                o.append("   %-40s %9s %9s   (no instrumented code: declarations only / cfg(test))" % (rel, "-", "-")); continue
             src = S(rel)
             lt, lc, ft, fcv, _ = file_stats(total[rel], src)
             if rel in own:
